@@ -20,7 +20,7 @@ RULE = ("E1: every ordered pair of ordered scopes over a 3-variable universe x c
 BOUNDS = {
     "quick": "cardvecs {1,2,3}^3 (27) x 3 patterns, style=def, numpy: full product of ordered scope pairs (15x15); "
              "deviation bound 1 on style (5 styles) and back end (torch) on 4 cardvecs",
-    "thorough": "full product cardvecs x patterns x 6 styles x 2 back ends",
+    "thorough": "full product cardvecs x patterns x 6 styles x 2 back ends; four variables: 4 cardinality vectors x 3 patterns x 3 (style, back end) pairs, all 64x64 ordered scope pairs",
 }
 EXHAUSTIVE = {"quick": True, "thorough": True}
 ASSUMPTIONS = ["operands that share a variable agree on its state list (as the property requires)",
@@ -99,11 +99,22 @@ def groups(tier, seed):
                 for st in STYLES:
                     for be in ("numpy", "torch"):
                         out.append({"card": list(cv), "pattern": pat, "style": st, "backend": be})
+        # four variables: 64 ordered scopes, every ordered pair
+        for cv in ((2, 3, 2, 2), (3, 2, 2, 3), (1, 2, 3, 2), (2, 2, 2, 2)):
+            for pat in PATTERNS:
+                for st, be in (("str", "numpy"), ("def", "torch"), ("mixed", "numpy")):
+                    out.append({"card": list(cv), "pattern": pat, "style": st, "backend": be})
     return out
+
+
+def _set_universe(g):
+    global U
+    U = tuple(range(len(g["card"])))
 
 
 def run_group(g, tier):
     st = Stats()
+    _set_universe(g)
     scopes = ordered_scopes()
     for s1 in scopes:
         _unary(g, s1, st)
@@ -117,6 +128,7 @@ def run_group(g, tier):
 def replay(case):
     st = Stats()
     g = case["group"]
+    _set_universe(g)
     if case["what"] == "unary":
         _unary(g, tuple(case["s1"]), st)
     elif case["what"] == "binary":
@@ -133,7 +145,7 @@ class _Ctx:
 
         self.g = g
         self.card = dict(zip(U, g["card"]))
-        self.lab = Labeling(3, self.card, "str", None, g["style"])
+        self.lab = Labeling(len(U), self.card, "str", None, g["style"])
         self.config = config
 
     def __enter__(self):
@@ -489,10 +501,10 @@ def _nary(g, st):
                     for f, s0 in zip(fs, snaps):
                         _unchanged(st, site, case(site, "operand-mutated"), f, s0, "operand changed")
                 # factor_sum_product for every output var subset
-                for out in subsets(U):
+                for out in subsets((0, 1, 2)):
                     if not out or len(out) == 3:
                         continue
-                    e2 = exp.marginalize(set(U) - set(out))
+                    e2 = exp.marginalize(set(exp.vars) - set(out))
                     site = "factor_sum_product"
                     try:
                         r = factor_sum_product([lab.name(v) for v in out], fs)
